@@ -26,6 +26,9 @@ type listingCase struct {
 	Code   []ref.Instr
 	Start  int
 	ViaAsm bool // warrior obtained through CompileWarrior instead of ParseLoadFile
+	// read and write limits of the simulator that prints the listing (0: the core size). The
+	// listing denotes the warrior as loaded, whatever distance the simulator will let it reach.
+	RL, WL int64 `json:",omitempty"`
 }
 
 func genListingCase(t *rapid.T) listingCase {
@@ -50,6 +53,10 @@ func genListingCase(t *rapid.T) listingCase {
 	}
 	c.Code, c.Start = genDialectWarrior(t, legacy, int(m), maxLen)
 	c.ViaAsm = rapid.Bool().Draw(t, "viaasm")
+	if rapid.IntRange(0, 2).Draw(t, "limits") == 0 {
+		c.RL = int64(gen.Limit(int(m)).Draw(t, "rl"))
+		c.WL = int64(gen.Limit(int(m)).Draw(t, "wl"))
+	}
 	return c
 }
 
@@ -60,6 +67,15 @@ func judgeListingCase(c listingCase, rec *hx.Rec) string {
 	m := int(c.Cfg.CoreSize)
 	text := rc.PrintLoadFile(c.Code, c.Start, c.Cfg.Legacy, m, rc.LoadStyle{})
 	cfg := asmG(c.Cfg)
+	if c.RL > 0 && c.RL <= c.Cfg.CoreSize {
+		cfg.ReadLimit = gmars.Address(c.RL)
+	}
+	if c.WL > 0 && c.WL <= c.Cfg.CoreSize {
+		cfg.WriteLimit = gmars.Address(c.WL)
+	}
+	if err := cfg.Validate(); err != nil {
+		panic(fmt.Sprintf("INCOMPLETE: harness configuration %+v is refused: %v", cfg, err))
+	}
 	var wd gmars.WarriorData
 	var err error
 	if c.ViaAsm {
@@ -124,12 +140,15 @@ func judgeListingCase(c listingCase, rec *hx.Rec) string {
 		if big {
 			cl = append(cl, "field_above_half")
 		}
+		if (c.RL > 0 && c.RL < c.Cfg.CoreSize) || (c.WL > 0 && c.WL < c.Cfg.CoreSize) {
+			cl = append(cl, "limit_below_core")
+		}
 		rec.Case(len(c.Code) >= 2 && (c.Start != 0 || big), hx.HashJSON(c), func() any { return map[string]any{"cfg": c.Cfg, "listing": listing} }, cl...)
 	}
 	return ""
 }
 
-const c16Rule = "rapid draws a warrior of the dialect (length 1..12, every legal form, fields incl. 0,1,M/2,M/2+1,M-1, every entry point; M in 3..16 or 17/80/8000/8192/55440/100003), obtains it from ParseLoadFile or CompileWarrior of the same dialect, adds it to a simulator and parses Warrior.LoadCode() with an independent listing reader (ORG START / END START, exactly one START label, OP.MOD in '94, bare OP in '88 with the modifier implied by the '88 table, mode character, signed decimal in (-M,M), comma); instructions compared with fields modulo M and START line index with the entry point. Non-trivial: >= 2 instructions and non-zero entry or a field above M/2; distinct by case hash."
+const c16Rule = "rapid draws a warrior of the dialect (length 1..12, every legal form, fields incl. 0,1,M/2,M/2+1,M-1, every entry point; M in 3..16 or 17/80/8000/8192/55440/100003; in a third of the cases read and write limits anywhere in [1,M]), obtains it from ParseLoadFile or CompileWarrior of the same dialect, adds it to a simulator and parses Warrior.LoadCode() with an independent listing reader (ORG START / END START, exactly one START label, OP.MOD in '94, bare OP in '88 with the modifier implied by the '88 table, mode character, signed decimal in (-M,M), comma); instructions compared with fields modulo M and START line index with the entry point. Non-trivial: >= 2 instructions and non-zero entry or a field above M/2; distinct by case hash."
 
 func TestC16(t *testing.T) {
 	hx.Run(t, hx.Prop[listingCase]{
@@ -155,6 +174,10 @@ type cliListCase struct {
 	Code  []ref.Instr
 	Start int
 	Two   bool // two files on the command line: two listings are printed
+	// Preset names a documented preset: dialect and core size come from the README's table and
+	// the -s, -l and -8 flags that are also given must be ignored ("and ignore other flags").
+	Preset string `json:",omitempty"`
+	Noise  int    `json:",omitempty"` // which misleading flags accompany the preset
 }
 
 func genCliListCase(t *rapid.T) cliListCase {
@@ -169,6 +192,13 @@ func genCliListCase(t *rapid.T) cliListCase {
 		l = 1
 	}
 	c.Cfg = gen.AsmConfig{Legacy: legacy, CoreSize: m, Length: l, Distance: l, Processes: 8000}
+	if rapid.IntRange(0, 2).Draw(t, "usepreset") == 0 {
+		c.Preset = rapid.SampledFrom([]string{"icws", "88", "nop256", "nopnano", "noptiny", "nop94"}).Draw(t, "preset")
+		c.Noise = rapid.IntRange(0, 7).Draw(t, "noise")
+		e := presetTable[c.Preset]
+		legacy, m, l = e.legacy, int64(e.m), int64(e.l)
+		c.Cfg = gen.AsmConfig{Legacy: legacy, CoreSize: m, Length: l, Distance: l, Processes: int64(e.p)}
+	}
 	maxLen := 10
 	if int64(maxLen) > l {
 		maxLen = int(l)
@@ -200,6 +230,18 @@ func judgeCliListCase(c cliListCase, rec *hx.Rec) string {
 	args := []string{"-A", "-s", fmt.Sprint(m), "-l", fmt.Sprint(c.Cfg.Length)}
 	if c.Cfg.Legacy {
 		args = append(args, "-8")
+	}
+	if c.Preset != "" {
+		args = []string{"-A", "-preset", c.Preset}
+		if c.Noise&1 != 0 {
+			args = append(args, "-s", fmt.Sprint([]int{8000, 80, 4096, 100003}[(c.Noise>>1)&3]))
+		}
+		if c.Noise&2 != 0 && !c.Cfg.Legacy {
+			args = append(args, "-8")
+		}
+		if c.Noise&4 != 0 {
+			args = append(args, "-l", "1000")
+		}
 	}
 	args = append(args, f1)
 	if c.Two {
@@ -235,7 +277,11 @@ func judgeCliListCase(c cliListCase, rec *hx.Rec) string {
 		}
 	}
 	if rec != nil {
-		rec.Case(len(c.Code) >= 2, hx.HashJSON(c), func() any { return map[string]any{"args": args, "stdout": stdout.String()} })
+		var cl []string
+		if c.Preset != "" {
+			cl = append(cl, "preset_"+c.Preset)
+		}
+		rec.Case(len(c.Code) >= 2, hx.HashJSON(c), func() any { return map[string]any{"args": args, "stdout": stdout.String()} }, cl...)
 	}
 	return ""
 }
@@ -243,7 +289,7 @@ func judgeCliListCase(c cliListCase, rec *hx.Rec) string {
 func TestC16_CommandLine(t *testing.T) {
 	hx.Run(t, hx.Prop[cliListCase]{
 		ID: "C16", Sub: "cli_A", Checks: hx.Scale(250, 16000),
-		Rule: "the same property through the command line: a freshly built cmd/gmars is run with -A (and -s, -l, optionally -8) on a generated warrior file, once or twice on the command line; each printed listing must be readable by the independent listing reader and denote the warrior (fields modulo M, entry point), stderr empty, exit status 0. Non-trivial: at least two instructions; distinct by case hash.",
+		Rule: "the same property through the command line: a freshly built cmd/gmars is run with -A and either -s, -l, optionally -8, or (one case in three) -preset <name> with misleading -s / -8 / -l flags that the usage text says are ignored, on a generated warrior file of the effective dialect and core size, once or twice on the command line; each printed listing must be readable by the independent listing reader and denote the warrior (fields modulo M, entry point), stderr empty, exit status 0. Non-trivial: at least two instructions; distinct by case hash.",
 		Gen:  genCliListCase, Judge: judgeCliListCase,
 	})
 }
